@@ -246,6 +246,12 @@ func muxHarness(rc *RunCtx) {
 		}
 	} else if kind == "http" {
 		hc := &http.Client{Transport: &muxRoundTripper{m: m}}
+		if k := tp.Intn("clienttmo", 5); k >= 3 {
+			// the application's http.Client has an overall Timeout of its own, far above any call's timeout (a common
+			// way to configure one): the call's own timeout still bounds each call
+			hc.Timeout = []time.Duration{5 * time.Minute, time.Hour}[k-3]
+			rc.Fault("http-client-with-its-own-long-timeout")
+		}
 		bld := frugal.NewFHTTPTransportBuilder(hc, "http://sim/frugal")
 		if tp.Intn("hdrcb", 3) == 2 {
 			// the application computes extra HTTP headers per call (a token lookup, say), which takes time:
@@ -329,10 +335,16 @@ func muxHarness(rc *RunCtx) {
 	// family: when set, every call's FContext is a clone of one context that has already made a call (distinct
 	// FContexts with fresh op ids, but whatever a transport attached to the first one travels with the clones)
 	var family frugal.FContext
+	familyWrapped := tp.Intn("ctxfamilywrap", 2) == 1
 	doCall := func(c *muxCall) {
 		ctx := frugal.NewFContext(fmt.Sprintf("cid-%d", c.id))
 		if family != nil && c.tag != "warm" {
 			ctx = frugal.Clone(family)
+			if familyWrapped {
+				// the application's own context type (a decorator embedding frugal.FContext): frugal.Clone takes its
+				// generic path, and the clone is a distinct FContext like any other
+				ctx = frugal.Clone(&muxTraced{FContext: family})
+			}
 		} else if c.tag == "warm" {
 			family = ctx
 		}
@@ -536,6 +548,12 @@ func muxHarness(rc *RunCtx) {
 
 // onRequest runs on the sender's task each time the system under test has
 // written a complete request frame.
+// muxTraced: an application-defined FContext (hides FContextImpl's own Clone and the ephemeral-property methods).
+type muxTraced struct {
+	frugal.FContext
+	span string
+}
+
 func (m *muxState) onRequest(frame []byte) {
 	f, err := DecodeFrame(frame)
 	if err != nil {
@@ -564,12 +582,25 @@ func (m *muxState) onRequest(frame []byte) {
 		}
 		dseq := strconv.Itoa(m.evN)
 		m.byDseq[dseq] = d
-		body := EncodeFrame(map[string]string{"_opid": opid, "_cid": "x", "tag": tag, "dseq": dseq}, []byte("resp:"+tag))
+		cid := "x"
+		if tp.Intn("cidembed", 6) == 5 {
+			// header values are byte strings: a correlation id (echoed by servers, chosen by whoever made the call) may
+			// happen to contain what an op id header of another pending call looks like on the wire. It sorts before
+			// "_opid" in the block; only a parser that walks the block pair by pair is right about whose response this is
+			for _, o := range m.calls {
+				if o.seen && o.opid != "" && o.opid != opid && !strings.HasPrefix(opid, o.opid+"|") {
+					cid = "c\x00\x00\x00\x05_opid" + string(binary.BigEndian.AppendUint32(nil, uint32(len(o.opid)))) + o.opid
+					m.rc.Fault("header-value-that-looks-like-another-calls-opid-header")
+					break
+				}
+			}
+		}
+		body := EncodeFrame(map[string]string{"_opid": opid, "_cid": cid, "tag": tag, "dseq": dseq}, []byte("resp:"+tag))
 		route := opid
 		if i := strings.Index(opid, "|via:"); i >= 0 {
 			// "<op id written into the frame>|via:<reply-subject suffix>"
 			opid, route = opid[:i], opid[i+5:]
-			body = EncodeFrame(map[string]string{"_opid": opid, "_cid": "x", "tag": tag, "dseq": dseq}, []byte("resp:"+tag))
+			body = EncodeFrame(map[string]string{"_opid": opid, "_cid": cid, "tag": tag, "dseq": dseq}, []byte("resp:"+tag))
 		}
 		m.s.AddEvent(fmt.Sprintf("peer:%03d:%s", m.evN, kind), delay, func() {
 			d.handedStep = m.s.Step
